@@ -142,12 +142,20 @@ structure WS where
   asap : Bool           -- buffEx.rd.commitASAP
   lastTs : Nat          -- stat.lastTimestamp
   stopped : Bool        -- buffEx.finishAccept
+  hb2 : Nat := 0        -- len(buffEx.hashBuff2): bytes of the first file kept for its md5 (only the length matters here)
 deriving DecidableEq, Repr
+
+def hashDataSize : Nat := 16384
+
+/-- updatePos: `offsetLocal + len(p) > maxFileSize - hashDataSize` (signed) -/
+def beyondHashBoundary (cfg : Cfg) (w : WS) (n : Nat) : Bool :=
+  decide ((cfg.chunk : Int) - hashDataSize < (w.offL : Int) + n)
 
 /-- appendLevUnsafe + updatePos -/
 def appendLev (cfg : Cfg) (w : WS) (data : Bytes) : WS :=
   let p := padded data
-  { w with buff := w.buff ++ p, crc := cfg.upd w.crc p, offL := w.offL + p.length, offG := w.offG + p.length }
+  { w with buff := w.buff ++ p, crc := cfg.upd w.crc p, offL := w.offL + p.length, offG := w.offG + p.length,
+           hb2 := if beyondHashBoundary cfg w p.length then w.hb2 + p.length else w.hb2 }
 
 def needCrc (cfg : Cfg) (w : WS) : Bool := decide (cfg.crcEvery ≤ w.offG - w.lastCrcPos)
 
@@ -166,8 +174,13 @@ def addRotate (cfg : Cfg) (w : WS) (ts h1 h2 : Nat) : WS :=
   let w3 := appendLev cfg w2 (encRotFrom ts nextPos w2.crc cur h2)
   { w3 with curHash := h2, fileStart := w3.offG - levRotateSize, firstFile := false }
 
-inductive PutRes | ok | stopped | wrongOffset
+inductive PutRes | ok | stopped | wrongOffset | panic
 deriving DecidableEq, Repr
+
+/-- the first-file md5 of the rotate block slices `hashBuff2[len(hashBuff2)-(hashDataSize-levRotateSize):]`; this is the
+    condition under which that slice expression panics (state = after the event and the crc record were appended) -/
+def hashSlicePanics (w : WS) : Bool :=
+  w.firstFile && decide (2 * hashDataSize - levRotateSize ≤ w.offL) && decide (w.hb2 < hashDataSize - levRotateSize)
 
 /-- the event and, if due, the crc record -/
 def putCrc (cfg : Cfg) (w : WS) (body : Bytes) (ts : Nat) : WS :=
@@ -184,8 +197,11 @@ def putLev (cfg : Cfg) (w : WS) (inOff : Int) (body : Bytes) (asap : Bool) (ts h
   if w.stopped then (w, .stopped, w.offG)
   else if inOff ≠ (w.offG : Int) then (w, .wrongOffset, w.offG)
   else
-    let w' := putBody cfg w body asap ts h1 h2
-    (w', .ok, w'.offG)
+    let w2 := putCrc cfg w body ts
+    if needRotate cfg w2 && hashSlicePanics w2 then (w2, .panic, w2.offG)
+    else
+      let w' := putBody cfg w body asap ts h1 h2
+      (w', .ok, w'.offG)
 
 /-! ## Writer loop and the file system it writes to -/
 
@@ -534,9 +550,14 @@ def readAll (cfg : Cfg) (files : List Bytes) (fromPos : Int) (si : Option Meta) 
 
 /-! ## restart: setupWriterWorker + WriteLoop prologue -/
 
-def wsInit (pos : Nat) (crc : UInt32) (last : Hdr) (ts : Nat) : WS :=
-  { crc := crc, offG := pos, offL := pos - last.pos.toNat, lastCrcPos := pos, fileStart := last.pos.toNat,
+/-- `restoreTail = true`: WriteLoop re-reads the part of the first file that lies beyond the hash boundary into hashBuff2
+    (code after the fix); `false`: hashBuff2 starts empty after a restart (code before the fix, kept for the witness). -/
+def wsInit (cfg : Cfg) (restoreTail : Bool) (pos : Nat) (crc : UInt32) (last : Hdr) (ts : Nat) : WS :=
+  let inFile := pos - last.pos.toNat
+  let boundary := cfg.chunk - hashDataSize          -- max(0, maxFileSize - hashDataSize)
+  { crc := crc, offG := pos, offL := inFile, lastCrcPos := pos, fileStart := last.pos.toNat,
     firstFile := decide (last.pos = 0), curHash := if last.pos = 0 then 0 else last.curHash,
-    buff := [], rotPos := [], asap := false, lastTs := ts, stopped := false }
+    buff := [], rotPos := [], asap := false, lastTs := ts, stopped := false,
+    hb2 := if restoreTail && decide (last.pos = 0) then inFile - min inFile boundary else 0 }
 
 end SH.Binlog
